@@ -388,14 +388,20 @@ def fixedConstPairs : List (Name × Name) := [
   (n!"consts.IPPROTO_UDP", n!"IPPROTO_UDP"),
   (n!"consts.LinkHdrLen_Ethernet", n!"ETH_HLEN"),
   (n!"consts.L4ProtoType_TCP_UDP", n!"L4ProtoType_X"),
-  (n!"control.defaultConnStateMapMaxEntries", n!"MAX_CONN_STATE_NUM"),
   -- conn_state_map idle limits: `tcp_conn_state_expired` (kernel, deletes on lookup) and
   -- `cleanupConnStateMap` (control-plane janitor) judge the same `last_seen_ns` of the same entries
   (n!"control.tcpConnStateTimeoutEstablished", n!"TCP_CONN_STATE_ESTABLISHED_TIMEOUT_NS"),
   (n!"control.tcpConnStateTimeoutClosing", n!"TCP_CONN_STATE_CLOSING_TIMEOUT_NS"),
-  -- idle limit of a non-DNS UDP conn_state entry: `udp_conn_state_expired` (kernel) and the janitor's
-  -- `normalTimeoutNano := QuicNatTimeout.Nanoseconds()` (control_plane.go, cleanupConnStateMap)
-  (n!"control.QuicNatTimeout", n!"UDP_CONN_STATE_TIMEOUT_NS")]
+  -- occupancy alarm of cleanupRedirectTrackMap: a function-local Go constant mirrors the map size
+  (n!"control.cleanupRedirectTrackMapBeforeLocked.redirectTrackCapacity", n!"MAX_REDIRECT_TRACK_NUM")]
+
+/-- Pairs where the property does not demand equality: the janitor's non-DNS UDP limit is
+`QuicNatTimeout` (primarily the QUIC NAT timeout) and the kernel's value is a documented backstop; the
+C defaults of `conn_state_map` / `fast_sock` sizes are overwritten by the loader. A difference is
+printed as a NOTE (drift), never a violation. -/
+def driftPairs : List (Name × Name) := [
+  (n!"control.QuicNatTimeout", n!"UDP_CONN_STATE_TIMEOUT_NS"),
+  (n!"control.defaultConnStateMapMaxEntries", n!"MAX_CONN_STATE_NUM")]
 
 def constPairOk (x : Name × Name) : Bool :=
   match lookupConst x.1 Gen.goConsts, lookupConst x.2 Gen.cConsts with
@@ -437,9 +443,9 @@ def limitChecks : List (String × Option Bool) := [
     pure (cw * 32 == g && gw * 32 == c)),
   ("routing_map holds MaxMatchSetLen entries", do
     let m ← mapMax? n!"routing_map"; let g ← goC? n!"consts.MaxMatchSetLen"; pure (m == g)),
-  ("lpm_array_map holds MAX_LPM_NUM >= MaxMatchSetLen tries (Go allocates index % MaxMatchSetLen)", do
-    let m ← mapMax? n!"lpm_array_map"; let g ← goC? n!"consts.MaxMatchSetLen"; let c ← cC? n!"MAX_LPM_NUM"
-    pure (g ≤ m && 0 < g && m == c)),
+  ("lpm_array_map holds at least MaxMatchSetLen tries (Go allocates index % MaxMatchSetLen)", do
+    let m ← mapMax? n!"lpm_array_map"; let g ← goC? n!"consts.MaxMatchSetLen"
+    pure (g ≤ m && 0 < g)),
   ("outbound_connectivity_map holds 256 * slotsPerOutbound slots", do
     let m ← mapMax? n!"outbound_connectivity_map"; let g ← goC? n!"control.outboundConnectivitySlotsPerOutbound"
     pure (m == 256 * g)),
@@ -453,10 +459,6 @@ def limitChecks : List (String × Option Bool) := [
     let c ← leafCount? Gen.cRecs n!"pid_pname" n!"pname"
     let d ← leafCount? Gen.cRecs n!"match_set" n!"pname"
     pure (a == t && b == t && c == t && d * 4 == t)),
-  ("conn_state_map default size", do
-    let m ← mapMax? n!"conn_state_map"; let g ← goC? n!"control.defaultConnStateMapMaxEntries"; pure (m == g)),
-  ("fast_sock placeholder size", do
-    let m ← mapMax? n!"fast_sock"; let g ← goC? n!"control.fastSockPlaceholderMaxEntries"; pure (m == g)),
   ("listen_socket_map holds the three listener keys", do
     let m ← mapMax? n!"listen_socket_map"
     let z ← goC? n!"consts.ZeroKey"; let o ← goC? n!"consts.OneKey"; let t ← goC? n!"consts.TwoKey"
@@ -470,6 +472,14 @@ def limitChecks : List (String × Option Bool) := [
     let c ← goC? n!"consts.OutboundUserDefinedMin"; let d ← cC? n!"OUTBOUND_BLOCK"
     pure (a + 1 == b && c == d + 1))
 ]
+
+/-- Relations the loader overrides at load time (`tuneConnStateBpfMap`, `tunePlaceholderBpfMaps`): a
+difference between the C default and the Go default is printed as a NOTE, it is not a theorem. -/
+def driftLimits : List (String × Option Bool) := [
+  ("conn_state_map default size (overwritten at load)", do
+    let m ← mapMax? n!"conn_state_map"; let g ← goC? n!"control.defaultConnStateMapMaxEntries"; pure (m == g)),
+  ("fast_sock placeholder size (overwritten at load)", do
+    let m ← mapMax? n!"fast_sock"; let g ← goC? n!"control.fastSockPlaceholderMaxEntries"; pure (m == g))]
 
 /-! ### Literals and constant keys in Go function bodies -/
 
@@ -489,7 +499,10 @@ def fieldLiteralMeaning : List (Name × Name × Name) := [
   (n!"stub.bpfMatchSet", n!"Not", n!""),
   (n!"stub.bpfMatchSet", n!"Must", n!"")]
 
-def fieldLiteralOk (l : Name × Name × Int × String) : Bool :=
+/-- A comparison whose constant operand is a NAMED constant that is already tied by `consts_agree` needs
+no meaning entry (its value is the C value by that theorem); bare literals and unpaired names do. -/
+def fieldLiteralOk (l : Name × Name × Int × String × Name) : Bool :=
+  (!nameEq l.2.2.2.2 n!"" && (specConstPairs ++ fixedConstPairs).any (fun x => nameEq x.1 l.2.2.2.2)) ||
   fieldLiteralMeaning.any (fun m =>
     nameEq m.1 l.1 && nameEq m.2.1 l.2.1 &&
       (if nameEq m.2.2 n!"" then l.2.2.1 == 0 else lookupConst m.2.2 Gen.cConsts == some l.2.2.1))
@@ -525,8 +538,8 @@ def cKernelOnlyConsts : List (Name × String) := [
   (n!"PACKET_OTHERHOST", "skb->pkt_type value, kernel only"),
   (n!"NOWHERE_IFINDEX", "kernel-internal sentinel"),
   (n!"MAX_INTERFACE_NUM", "kernel-internal bound"),
+  (n!"MAX_LPM_NUM", "max_entries of lpm_array_map; the Go side needs only max_entries >= MaxMatchSetLen (limits_agree)"),
   (n!"MAX_LPM_SIZE", "max_entries of an LPM trie; the Go side copies it from the loaded map spec at run time"),
-  (n!"MAX_REDIRECT_TRACK_NUM", "map size; the janitor reads MaxEntries() from the loaded map"),
   (n!"MAX_ROUTING_HANDOFF_NUM", "map size; the janitor reads MaxEntries() from the loaded map"),
   (n!"MAX_COOKIE_PID_PNAME_MAPPING_NUM", "map size; the janitor reads MaxEntries() from the loaded map"),
   (n!"MAX_DOMAIN_ROUTING_NUM", "map size, not mirrored"),
@@ -550,7 +563,8 @@ def cKernelOnlyConsts : List (Name × String) := [
 
 /-- C constants tied to the Go side by a check other than a constant pair. -/
 def cConstsTiedElsewhere : List Name :=
-  [n!"MAX_LPM_NUM", n!"BPF_STATS_UDP_CONN_OVERFLOW", n!"BPF_STATS_TCP_CONN_OVERFLOW"]
+  [n!"BPF_STATS_UDP_CONN_OVERFLOW", n!"BPF_STATS_TCP_CONN_OVERFLOW"]
+  ++ driftPairs.map (·.2)
   ++ (fieldLiteralMeaning.map (·.2.2)).filter (fun n => !nameEq n n!"")
 
 def cConstClassified (n : Name) : Bool :=
@@ -561,13 +575,19 @@ def cConstClassified (n : Name) : Bool :=
 /-! ### PARAM contents, Go byte order per GOARCH -/
 
 /-- What each member of `struct dae_param` must be initialised from (identifiers that must / must not
-occur in the initialiser of the Go field at the same position). -/
+occur in the initialiser of the Go field at the same position, locals resolved through their
+assignments to depth 3 — so the names are those of the called methods/fields, not of locals). -/
 def paramContents : List (Name × List Name × List Name) := [
   (n!"tproxy_port", [n!"BigEndianTproxyPort"], []),
   (n!"control_plane_pid", [n!"Getpid"], []),
-  (n!"dae0_ifindex", [n!"Dae0", n!"Index"], [n!"netnsID", n!"Dae0Peer"]),
-  (n!"dae_netns_id", [n!"netnsID"], [n!"Index"]),
-  (n!"dae0peer_mac", [n!"peerMac"], []),
+  (n!"dae0_ifindex", [n!"Dae0", n!"Index"], [n!"NetnsID", n!"Dae0Peer"]),
+  (n!"dae_netns_id", [n!"NetnsID"], [n!"Index"]),
+  (n!"dae0peer_mac", [n!"Dae0Peer", n!"HardwareAddr"], [])]
+
+/-- Members whose source is only recognisable by the NAME of a local variable / parameter
+(`useRedirectPeer`, `hasBpfGetCurrentTask`, `soMarkFromDae`): a mismatch is printed as a NOTE by the
+check, it is not a theorem (renaming a local is harmless). -/
+def paramContentsByLocalName : List (Name × List Name × List Name) := [
   (n!"use_redirect_peer", [n!"useRedirectPeer"], [n!"hasBpfGetCurrentTask"]),
   (n!"has_bpf_get_current_task", [n!"hasBpfGetCurrentTask"], [n!"useRedirectPeer"]),
   (n!"dae_socket_mark", [n!"soMarkFromDae"], [])]
@@ -605,6 +625,24 @@ def nativeEndianOk (x : Name × Bool) : Bool :=
   match lookupNameOpt x.1 Gen.goNativeEndian with
   | some v => nameEq v (if x.2 then n!"big" else n!"little")
   | none => false
+
+/-! ### Which outbound id a group's callback is bound to; coverage of the map-I/O scan -/
+
+/-- The kernel reads the slot of `match_set.outbound` = index of the group in `outbounds`
+(`outboundName2Id[o.Name] = uint8(i)`); the callback must be created with that same index
+(`uint8(len(outbounds))` just before the append) or the reserved ids 0/1. A call site whose id is that
+index plus a non-zero constant publishes a group's health under another group's slot. Shapes the
+translator cannot classify (`other`) are reported as a NOTE. -/
+def callbackShapeBad (s : Name) : Bool := nameEq s n!"index+k"
+
+/-- maps with a Go handle whose contents the control plane does not touch through map I/O calls
+(ring buffer consumer absent, placeholder sockhash, per-CPU scratch) -/
+def mapsWithoutGoIO : List Name := [n!"event_ringbuf", n!"fast_sock", n!"pkt_scratch_map"]
+
+/-- every other map of `bpfMaps` has at least one key row in the regenerated map-I/O table (a map
+reached only through an alias the scan does not follow would silently drop its rows) -/
+def mapIOCovers (t : Name) : Bool :=
+  nameMem t mapsWithoutGoIO || Gen.goMapIO.any (fun c => nameEq c.map t && c.role == 0)
 
 /-! ### Programs, sections, map kinds, build-time override -/
 
@@ -644,7 +682,9 @@ def goMapKindExpect : List (Name × Nat) := [
   (n!"domain_routing_map", 1), (n!"unused_lpm_type", 11), (n!"lpm_array_map", 12), (n!"listen_socket_map", 15)]
 
 def mapKindOk (x : Name × Nat) : Bool :=
-  match findMap x.1 Gen.cMaps with | some m => m.mtype == x.2 | none => false
+  match findMap x.1 Gen.cMaps with
+  | some m => m.mtype == x.2 || (x.2 == 1 && m.mtype == 9)   -- HASH or LRU_HASH: eviction policy is a tuning the property does not fix
+  | none => false
 
 /-- `ebpf.LPMTrie` etc. as numbers -/
 def ebpfMapTypeNum : List (Name × Nat) := [(n!"Hash", 1), (n!"Array", 2), (n!"LPMTrie", 11), (n!"ArrayOfMaps", 12)]
@@ -657,15 +697,21 @@ def newMapTypeOk (x : Name × Name) : Bool :=
     | _, _ => false
   else true
 
-/-- Build-time override: the Makefile hands ONE variable to the C compiler (`-DMAX_MATCH_SET_LEN`) and
+/-- Build-time override (`makefileGlueOk` — recognised by text patterns in the Makefile, reported as a
+NOTE when not recognised — and `overrideConsistent`, the theorem): the Makefile hands ONE variable to the C compiler (`-DMAX_MATCH_SET_LEN`) and
 to the Go linker (`-X …consts.MaxMatchSetLen_`), its default is the default of both sources, and for a
 non-default value (2048) the C program's dependent sizes follow it (bitmap words × 32, `routing_map`,
 `lpm_array_map` = N + 8 = `MAX_LPM_NUM`). -/
-def overrideConsistent : Bool :=
+def makefileGlueOk : Bool :=
   (match Gen.makefileMaxMatchSetLen.1, goC? n!"consts.MaxMatchSetLen", cC? n!"MAX_MATCH_SET_LEN" with
    | some d, some g, some c => d == g && d == c
    | _, _, _ => false)
   && Gen.makefileMaxMatchSetLen.2.1 && Gen.makefileMaxMatchSetLen.2.2
+
+def overrideConsistent : Bool :=
+  (match goC? n!"consts.MaxMatchSetLen", cC? n!"MAX_MATCH_SET_LEN" with
+   | some g, some c => g == c
+   | _, _ => false)
   && (match Gen.cOverride2048 with
       | [n, words, rm, lpm, lpmNum] => n == 2048 && words * 32 == n && rm == n && lpm == n + 8 && lpmNum == lpm
       | _ => false)
@@ -966,6 +1012,14 @@ as it lies in memory -/
 def cMacPack (e : Endian) (m0 m1 m2 m3 m4 m5 : Nat) : List Nat :=
   zeros 8 ++ nativeBytes e 4 (htonl e (m0 * 256 + m1))
     ++ nativeBytes e 4 (htonl e (m2 * 2 ^ 24 + m3 * 2 ^ 16 + m4 * 256 + m5))
+
+/-! ### Reading a port of a key on the Go side -/
+
+/-- `dnsPortNetworkOrder = common.Htons(53)`, compared by the janitor with `key.Sport` / `key.Dport`
+(native loads of the two network-order bytes); the kernel's own test is `key->dport == bpf_htons(53)`. -/
+def goDnsPortConst (e : Endian) : Nat := htons e 53
+/-- what the janitor / the kernel load from the key for a flow with port `p` -/
+def keyPortLoad (e : Endian) (p : Nat) : Nat := nativeVal e (beBytes 2 p)
 
 /-! ### The hand-written key images follow the regenerated layouts -/
 
